@@ -129,6 +129,18 @@ Theorem C07_displ_direction : forall (pos : list (V3 R)) (tb : bond_table R) k u
 Proof. exact displ_direction_zero. Qed.
 Print Assumptions C07_displ_direction.
 
+(* displ=None: the atom is moved by a drawn displacement that satisfies the perpendicularity clause with respect to
+   the INPUT positions of its neighbours, whatever the table says about lengths; every theorem above applies to the
+   run with that displacement *)
+Theorem C07_default_displ : forall (pos : list (V3 R)) (tb : bond_table R) k sigma_scale u neg g out,
+  move_mol_atom_default pos tb k sigma_scale u neg g = Ok out ->
+  exists d, find_atom_random_displ pos tb k sigma_scale u neg g = Ok d /\ move_mol_atom pos tb k d = Ok out /\
+    vnorm d = Rabs g /\
+    (exists nb, tbl_get tb k = Ok nb /\ displ_perp_spec pos k nb d) /\
+    exists pk, nth_error pos k = Some pk /\ nth_error out k = Some (vadd pk d).
+Proof. exact default_displ. Qed.
+Print Assumptions C07_default_displ.
+
 (* ---------------------------------------------------------------- non-vacuity *)
 (* a branched four-atom tree (atom 1 bonded to 0, 2, 3), generic coordinates, table disagreeing with the
    geometry, atom 0 moved: all hypotheses of C07_tree hold and the run returns Ok *)
